@@ -40,8 +40,39 @@ def load_variants(props=None) -> list:
     return out
 
 
+def load_seeded(props=None) -> list:
+    """Independently seeded changes (sub-agents, confirmed with tools/seed_verify.py) as 'break' variants of
+    their property, and the confirmed behaviour-preserving refactorings as 'equiv' variants of EVERY property."""
+    import json
+    out = []
+    root = Path(__file__).resolve().parent.parent
+    for m in sorted((root / 'seeded').glob('*/meta.json')):
+        meta = json.loads(m.read_text())
+        if props and meta['property'] not in props:
+            continue
+        out.append({'id': 'seeded:' + m.parent.name, 'kind': 'break', 'prop': meta['property'],
+                    'patch': str(m.parent / 'patch.diff')})
+    for m in sorted((root / 'seeded_equiv').glob('*/meta.json')):
+        for pid in sorted(props) if props else [f'C{i:02d}' for i in range(1, 21)]:
+            out.append({'id': f'refactoring:{m.parent.name}', 'kind': 'equiv', 'prop': pid,
+                        'patch': str(m.parent / 'patch.diff')})
+    return out
+
+
 def apply_variant(v, root: Path) -> str:
     """Returns '' on success, or the reason the variant is skipped."""
+    if 'patch' in v:
+        import subprocess
+        r = subprocess.run(['patch', '-p1', '-s', '-f', '-d', str(root), '-i', v['patch']],
+                           capture_output=True, text=True)
+        if r.returncode != 0:
+            return 'patch does not apply to the current tree'
+        for path in (root / 'src').rglob('*.py'):
+            try:
+                compile(path.read_text(encoding='utf-8'), str(path), 'exec')
+            except SyntaxError as err:
+                return f'variant does not compile: {err}'
+        return ''
     edits = v.get('edits') or [(v['file'], v['old'], v['new'])]
     for rel, old, new in edits:
         path = root / 'src' / 'ampycloud' / rel
@@ -96,7 +127,7 @@ def run_variant(v) -> dict:
 
 
 def run_all(props=None, jobs=None) -> list:
-    variants = load_variants(props)
+    variants = load_variants(props) + load_seeded(props)
     jobs = jobs or min(16, os.cpu_count() or 4)
     if jobs == 1 or len(variants) < 3:
         return [run_variant(v) for v in variants]
